@@ -37,7 +37,10 @@ def classify (c : CaseSt) (toks : List String) : String :=
   let degenerate := ks.any (fun k => match (c.runs[k]?).bind (·.req) with
     | some rq => hasIncidence rq.a rq.b (tol * 1000)
     | none => false)
-  let exactRun := !isSweep && ks.all (fun k => match (c.runs[k]?).bind (·.req), (exacts.lookup k).join with
+  let sweepExact := isSweep && ks.all (fun k => match (c.runs[k]?).bind (·.req) with
+    | some rq => Run.subdivAnswer rq.ar rq.prec rq.op rq.cfg rq.a rq.b == Run.subdivAnswer Arith.exact rq.prec rq.op rq.cfg rq.a rq.b
+    | none => false)
+  let exactRun := sweepExact || !isSweep && ks.all (fun k => match (c.runs[k]?).bind (·.req), (exacts.lookup k).join with
     | some rq, some ex =>
       (match Run.runBoolReq rq rq.ar with
        | .ok o => showMPoly o.result == showMPoly ex
